@@ -134,8 +134,11 @@ func check(c Case) error {
 	text := write(c)
 	// the parser gets a buffer of its own, which is overwritten once it has returned (a caller re-using its read
 	// buffer): what Parse returned must not change with it
-	buf := append([]byte{}, text...)
+	buf, intact := vk.Guarded(text) // the front part of a larger buffer (two listings in one file image, say)
 	got := rebase.Parse(buf)
+	if err := intact(); err != nil {
+		return fmt.Errorf("Parse: %v", err)
+	}
 	vk.Scribble(buf)
 	if err := compare("Parse", c, got); err != nil {
 		return err
@@ -165,7 +168,26 @@ func check(c Case) error {
 	if err != nil {
 		return vk.Errf("Read returned error %v", err)
 	}
-	return compare("Read", c, viaFile)
+	if err := compare("Read", c, viaFile); err != nil {
+		return err
+	}
+	// the results belong to the caller: entries overwritten, their lists written into, one entry added - and the same
+	// listing parses again to what it says
+	for _, m := range []map[string]rebase.Enzyme{got, back, viaFile} {
+		for k, e := range m {
+			for i := range e.CommercialAvailability {
+				e.CommercialAvailability[i] = "overwritten by the caller"
+			}
+			for i := range e.Isoschizomers {
+				e.Isoschizomers[i] = "X"
+			}
+			e.CommercialAvailability = append(e.CommercialAvailability, "appended by the caller")
+			e.Name, e.References = "edited", "edited"
+			m[k] = e
+		}
+		m["VerifI"] = rebase.Enzyme{Name: "VerifI"}
+	}
+	return compare("Parse, a second time, after the caller had written into the earlier results", c, rebase.Parse(append([]byte{}, text...)))
 }
 
 func nonTrivial(c Case) bool {
